@@ -10,6 +10,10 @@ CHECKS = {
    technique="static analysis: decision tables extracted from MIR by path enumeration with role-identified comparison atoms (A6), constant/origin checks at blocked sites, sibling agreement of the +1/-1 callbacks",
    text="Decides the admission predicates of the isolation checker (trip iff in_flight + n > T) and of the hotspot concurrency checker (pass iff in_flight <= limit, limit = per-value override else threshold) for every ordering of the compared quantities, the BlockType/rule/snapshot carried by the rejection, and that the per-value in-flight counter is raised and lowered by one under identical guards. It decides these structural clauses on all paths, not the behaviour over build/exit interleavings (the numeric cap over histories follows only together with C04/C13's pairing rules).",
    note="Values are touched only through the listed comparisons; NaN ignored; LRU eviction and concurrency (C14) outside this check. Known finding: hotspot concurrency ignores the batch count."),
+ "C09": dict(
+   technique="static analysis: exhaustiveness of the metric match against the enum + per-arm decision tables extracted from MIR (A6), origin checks of the observed operands, path rules for the Outbound early return and the block gate",
+   text="Decides, for each of the five system metric arms, that the extracted decision formula equals the statement's (>= for QPS/concurrency/RT; > plus the BBR side condition for load/CPU) on every ordering of (observed, threshold) x strategy x bbr_ok, that the BBR capacity test is !(n > 1 && n > max_avg(Complete)*min_rt/1000) on the inbound node, that Outbound entries return before any rule is read, and that the rejection is SystemFlow with rule and observed value. It does not decide that the observed statistics equal the traffic history.",
+   note="Comparison atoms identified by operand origin slices; NaN ignored; injected load/CPU readings trusted."),
 }
 NOT_APPLICABLE = {("C%02d" % i): PENDING for i in range(1, 21) if ("C%02d" % i) not in CHECKS}
 NOT_APPLICABLE["C08"] = "numerical trajectory over runtime values (ramp shape, 2p+2 s bound); no structural clause is a necessary condition of the stated bounds (DESIGN.md §3 C08)"
